@@ -40,7 +40,11 @@ pub struct Variant {
     /// keyframes are added in the order k, k+1, .., n-1, 0, .., k-1 (only meaningful when all positions are distinct:
     /// the result does not depend on the insertion order then - MC_Keyframes!OrderFree)
     pub rot: usize,
+    /// 1: keyframes added in ascending order of position, 2: in descending order (0: as described, rotated by `rot`)
+    pub sorted: u8,
 }
+
+fn nk_all_distinct(line: &Value) -> bool { distinct_positions(line) }
 
 /// all keyframe positions of the description are distinct
 pub fn distinct_positions(cfg: &Value) -> bool {
@@ -61,8 +65,12 @@ pub fn config_tl_var(cfg: &Value, pd: i64, pmap: &[usize], s: i64, var: Variant)
         .reverse(tm["rev"].as_bool().unwrap())
         .default_easing(easing(cfg["de"].as_i64().unwrap()));
     let nkf = cfg["kfs"].as_array().unwrap().len();
-    for step in 0..nkf {
-        let ki = (step + var.rot) % nkf;
+    let mut order: Vec<usize> = (0..nkf).map(|step| (step + var.rot) % nkf).collect();
+    if var.sorted != 0 {
+        order.sort_by_key(|&i| cfg["kfs"][i]["pos"].as_i64().unwrap());
+        if var.sorted == 2 { order.reverse(); }
+    }
+    for ki in order {
         let kf = &cfg["kfs"][ki];
         let copies = match var.dup { Some((j, n)) if j == ki => n + 1, _ => 1 };
         for _ in 0..copies {
@@ -189,6 +197,40 @@ pub fn replay_tl_line(tally: &mut Tally, lineno: usize, line: &Value, scales: &[
             Ok(local) => tally.absorb(local),
             Err(e) => { let msg = e.downcast_ref::<String>().cloned().or_else(|| e.downcast_ref::<&str>().map(|s| s.to_string())).unwrap_or_default();
                         tally.miss(json!({"line": lineno, "scale": s, "class": "panic", "panic": msg})); }
+        }
+    }
+    // C11 proper: with distinct positions the SAME keyframes added in ascending, in descending and in the line's own
+    // order are observationally the same timeline (bit for bit at every tick) - whichever of them the specification
+    // agrees with
+    if nk_all_distinct(line) && pos.len() >= 2 {
+        let r = catch_unwind(AssertUnwindSafe(|| {
+            let mut local = Tally::new();
+            let s = scales[0];
+            let tick = scale(s);
+            let mk = |sorted: u8| { let mut tl = config_tl_var(line, pd, &pmap, s, Variant { sorted, ..Variant::default() }).build();
+                                    if let Some(v) = start_values(&line["ov"], &pmap) { tl.start_with(&v); } tl };
+            let (own, asc, desc) = (mk(0), mk(1), mk(2));
+            let ts = line.get("ts").and_then(|c| c.as_array());
+            for ti in 0..line["evals"].as_array().unwrap().len() {
+                let t = ts.map(|a| a[ti].as_i64().unwrap()).unwrap_or(ti as i64);
+                let (mut a, mut b, mut c) = (SENT.clone(), SENT.clone(), SENT.clone());
+                own.update(&mut a, t as f32 * tick); asc.update(&mut b, t as f32 * tick); desc.update(&mut c, t as f32 * tick);
+                local.evals += 1;
+                *local.by_class.entry("order-twins".into()).or_insert(0) += 1;
+                if a.bits() != b.bits() || a.bits() != c.bits() {
+                    local.miss(json!({"line": lineno, "scale": s, "t": t, "class": "order-dependent", "as_described": a.bits(), "ascending_insertion": b.bits(), "descending_insertion": c.bits(), "what": "update"}));
+                    break;
+                }
+            }
+            if (own.delay(), own.duration(), own.cycle_duration(), own.repeat()) != (asc.delay(), asc.duration(), asc.cycle_duration(), asc.repeat()) {
+                local.miss(json!({"line": lineno, "scale": s, "class": "order-dependent", "what": "metadata"}));
+            }
+            local
+        }));
+        match r {
+            Ok(local) => tally.absorb(local),
+            Err(e) => { let msg = e.downcast_ref::<String>().cloned().or_else(|| e.downcast_ref::<&str>().map(|s| s.to_string())).unwrap_or_default();
+                        tally.miss(json!({"line": lineno, "scale": "insertion-order twins", "class": "panic", "panic": msg})); }
         }
     }
     // the same behaviour through a timeline type wired by hand on the re-exported building blocks
